@@ -101,6 +101,38 @@ Example C14_transitivity_needed :
   fst (pm_has_link nt_mf (pm_run nt_mf (pm_empty 10) h2) 3 4)%N = false.
 Proof. exact transitivity_needed. Qed.
 
+(* ---- domains: an assignment recorded for a domain pattern applies in exactly the domains that
+        match it (and one recorded for a plain domain in exactly that domain) ---- *)
+Theorem C14_domain_pattern_applies_exactly : forall mf dmf m h a b d,
+  pdm_no_deletes h = true -> pdm_in_scope mf dmf (h ++ [QHas a b d]) = true ->
+  (fst (pdm_has_link mf dmf (pdm_run mf dmf (pdm_empty m) h) a b d) = true
+   <-> exists k, k < m /\ path (grant mf (pdm_adds_in dmf d h)) k a b).
+Proof. exact domain_pattern_applies_exactly. Qed.
+Print Assumptions C14_domain_pattern_applies_exactly.
+
+(* deletion with domain patterns: the same defect (names 1 -> 2; domain 5 = d1, 6 = the pattern * ) *)
+Theorem C14_domain_delete_refuted :
+  let h := [QAdd 1 2 5; QHas 1 2 5; QAdd 1 2 6; QDel 1 2 6]%N in
+  let s := pdm_run wd_mf wd_dmf (pdm_empty 10) h in
+  pdm_in_scope wd_mf wd_dmf (h ++ [QHas 1 2 5])%N = true /\
+  fst (pdm_has_link wd_mf wd_dmf (pdm_run wd_mf wd_dmf (pdm_empty 10) [QAdd 1 2 5; QHas 1 2 5; QAdd 1 2 6]%N) 1 2 5)%N = true /\
+  pdm_own s 5%N = [(1, 2)]%N /\
+  fst (pdm_has_link wd_mf wd_dmf s 1 2 5)%N = false /\
+  snd (pdm_delete_link_x wd_mf wd_dmf s 1 2 5)%N = Some EKeyError.
+Proof. exact domain_delete_refuted. Qed.
+Print Assumptions C14_domain_delete_refuted.
+
+Example C14_example_domain :
+  let mf := table_mf [(1, 1); (2, 2); (3, 3)]%N in
+  let dmf := table_mf [(5, 5); (6, 6); (7, 7); (8, 8); (5, 6); (7, 6); (8, 6); (5, 8)]%N in   (* 6 = *, 8 = d* *)
+  let h := [QAdd 1 2 6; QHas 1 2 5; QAdd 2 3 8; QHas 1 3 7; QAdd 1 3 7]%N in
+  pdm_no_deletes h = true /\ pdm_in_scope mf dmf (h ++ [QHas 1 3 5])%N = true /\
+  fst (pdm_has_link mf dmf (pdm_run mf dmf (pdm_empty 10) h) 1 3 5)%N = true /\    (* d1 matches * and d* *)
+  fst (pdm_has_link mf dmf (pdm_run mf dmf (pdm_empty 10) h) 2 3 7)%N = false /\   (* d2 does not match d* *)
+  fst (pdm_has_link mf dmf (pdm_run mf dmf (pdm_empty 10) h) 1 3 7)%N = true /\    (* recorded for d2 itself *)
+  fst (pdm_has_link mf dmf (pdm_run mf dmf (pdm_empty 10) h) 1 2 6)%N = true.      (* the pattern's own domain *)
+Proof. vm_compute. repeat split; reflexivity. Qed.
+
 (* non-vacuity: two patterns (one matching the other), three names, a role chain, queries
    interleaved; all hypotheses hold; answers computed *)
 Example C14_example :
